@@ -63,7 +63,8 @@ theorem shifted_code_roundtrip (u : Uni) (k : Key) (pam ckm : Bool) (s : Seq)
           refine ⟨⟨by omega, by omega⟩, ?_⟩; intro; omega
         have hpos : k.shifted > 0 := by omega
         constructor
-        · unfold encodeXterm
+        · rw [encodeXterm_core_of_lt _ _ _ _ (by have := maxRune_lt_keypad; omega)]
+          unfold encodeXtermCore
           simp only [xm_eq, hm7]
           rw [encodeTables_char _ _ _ _ _ hmax (Or.inl htab)]
           rcases ht with ht | ht | ht
@@ -105,7 +106,8 @@ theorem shifted_code_roundtrip (u : Uni) (k : Key) (pam ckm : Bool) (s : Seq)
             refine ⟨⟨by omega, by omega⟩, ?_⟩; intro; omega
           have hpos : k.shifted > 0 := by omega
           constructor
-          · unfold encodeXterm
+          · rw [encodeXterm_core_of_lt _ _ _ _ (by have := maxRune_lt_keypad; omega)]
+            unfold encodeXtermCore
             simp only [xm_eq, hm7]
             rw [encodeTables_char _ _ _ _ _ hmax (Or.inl htab)]
             simp [ha, hmax, ModShift, ModAlt, ModCtrl, hpos, strOfRune, hv, renderSeq]
